@@ -268,7 +268,12 @@ class _STIXBase(collections.abc.Mapping):
 
         self._inner = setting_kwargs
 
-        self._check_object_constraints()
+        try:
+            self._check_object_constraints()
+        except RecursionError:
+            # (e.g. the walk over all property paths which validates
+            # granular marking selectors)
+            raise ValueError("content is nested too deeply")
 
         if allow_custom:
             self.__has_custom = has_custom
